@@ -149,7 +149,7 @@ Section INV.
     sc_table sc = sc_table sc' -> (forall b, has_bnd sc' b <-> has_bnd sc b) -> scan_bounded info w sc -> scan_bounded info w sc'.
   Proof.
     intros Ht Hb [Hc Hty]. unfold scan_bounded. rewrite <- Ht. split.
-    - destruct (ti_class (info (sc_table sc))); [| |exact Hc].
+    - destruct (ti_class (info (sc_table sc))) as [| | |k]; [| |exact Hc|].
       + destruct Hc as [[lo [A1 A2]] B [hi [C1 C2]] D]. constructor.
         * exists lo. split; [apply Hb, A1 | exact A2].
         * intros x Hx. apply B, Hb, Hx.
@@ -161,6 +161,11 @@ Section INV.
         * intros x Hx. apply C, Hb, Hx.
         * intros x Hx. apply D, Hb, Hx.
         * intros x Hx. apply E, Hb, Hx.
+      + destruct Hc as [[lo [A1 A2]] B [hi [C1 C2]] D]. constructor.
+        * exists lo. split; [apply Hb, A1 | exact A2].
+        * intros x Hx. apply B, Hb, Hx.
+        * exists hi. split; [apply Hb, C1 | exact C2].
+        * intros x Hx. apply D, Hb, Hx.
     - intros H1 H2. destruct (Hty H1 H2) as [[l A] B C]. constructor.
       + exists l. apply Hb, A.
       + intros Hx. apply B, Hb, Hx.
@@ -531,8 +536,12 @@ Definition win (c : pctx) : window :=
 (* for plans that may read the 15-second roll-up table: bounds may be widened to 15 s storage boundaries
    below, and the last started 15 s slot need not be read *)
 Definition fl15 (x : Z) : Z := (Z.quot x 15000000000 * 15000000000)%Z.
+Definition slot15 : Z := 15000000000.
+(* the window of a plan that may take the shortcut: nothing below From may be read from a raw table; the roll-up read,
+   a slot table, is judged at slot granularity (Scans.slot_win floors the lowest allowed bound to the slot start) and
+   ends with the last whole slot at or before To *)
 Definition win15 (c : pctx) : window :=
-  {| w_from := c_from_ns c; w_to := fl15 (c_to_ns c); w_lo_min := fl15 (c_from_ns c); w_hi_max := c_to_ns c;
+  {| w_from := c_from_ns c; w_to := fl15 (c_to_ns c); w_lo_min := c_from_ns c; w_hi_max := c_to_ns c;
      w_type := api_type c |}.
 Lemma api_type_nz c : api_type c <> 0%Z.
 Proof. unfold api_type. destruct (Z.eqb_spec (c_type c) 0); [discriminate | assumption]. Qed.
@@ -542,7 +551,8 @@ Record win_ok (m15 : bool) (c : pctx) (w : window) : Prop := {
   wk_type : w_type w = api_type c;
   wk_lo : (w_lo_min w <= c_from_ns c <= w_from w)%Z;
   wk_hi : (w_to w <= c_to_ns c <= w_hi_max w + 1)%Z;
-  wk_m15 : m15 = true -> (w_lo_min w <= fl15 (c_from_ns c) <= w_from w /\ w_to w <= fl15 (c_to_ns c) <= w_hi_max w + 1)%Z
+  wk_m15 : m15 = true -> (fl_slot slot15 (w_lo_min w) <= fl15 (c_from_ns c) <= w_from w /\
+                          w_to w <= fl15 (c_to_ns c) <= cl_slot slot15 (w_hi_max w + 1))%Z
 }.
 Lemma win_ok_win c : win_ok false c (win c).
 Proof. constructor; cbn [win w_type w_from w_to w_lo_min w_hi_max]; try reflexivity; try lia; try discriminate. Qed.
@@ -552,20 +562,30 @@ Proof.
   pose proof (Z.rem_nonneg x 15000000000 ltac:(lia) H) as R.
   pose proof (Z.quot_pos x 15000000000 H ltac:(lia)) as Qp. lia.
 Qed.
+Lemma fl15_slot x : (0 <= x)%Z -> fl15 x = fl_slot slot15 x.
+Proof. intros H. unfold fl15, fl_slot, slot15. rewrite Z.quot_div_nonneg by lia. reflexivity. Qed.
+Lemma fl15_aligned x : (fl15 x mod slot15 = 0)%Z.
+Proof. unfold fl15, slot15. apply Z_mod_mult. Qed.
+Lemma slot15_pos : (0 < slot15)%Z.
+Proof. reflexivity. Qed.
 Lemma win_ok_win15 c : (0 <= c_from_ns c)%Z -> (0 <= c_to_ns c)%Z -> win_ok true c (win15 c).
 Proof.
   intros Hf Ht. pose proof (fl15_le _ Hf). pose proof (fl15_le _ Ht).
-  constructor; cbn [win15 w_type w_from w_to w_lo_min w_hi_max]; try reflexivity; try lia; try (intros _; lia).
+  constructor; cbn [win15 w_type w_from w_to w_lo_min w_hi_max]; try reflexivity; try lia.
+  intros _. rewrite <- (fl15_slot _ Hf).
+  destruct (cl_slot_spec slot15 (c_to_ns c + 1) slot15_pos) as [[C1 _] _]. lia.
 Qed.
 
 Definition data_typed : tinfo := {| ti_class := CData; ti_typed := true |}.
 Definition index_typed : tinfo := {| ti_class := CIndex; ti_typed := true |}.
+(* the roll-up table: rows stamped with the start of their 15-second slot *)
+Definition slot15_typed : tinfo := {| ti_class := CSlot slot15; ti_typed := true |}.
 Record ctx_tables (info : string -> tinfo) (c : pctx) : Prop := {
   ct_samples : info (t_samples c) = data_typed;
   ct_gin : info (t_gin c) = index_typed;
   ct_ts : info (t_ts c) = index_typed;
   ct_ts_dist : info (t_ts_dist c) = index_typed;
-  ct_m15 : info (t_m15 c) = data_typed
+  ct_m15 : info (t_m15 c) = slot15_typed
 }.
 
 (* verdicts on explicit bound lists *)
@@ -591,6 +611,39 @@ Proof.
   replace (hi <? w_to w)%Z with false by (symmetry; apply Z.ltb_ge; lia).
   replace (hi >? w_hi_max w + 1)%Z with false by (symmetry; rewrite Z.gtb_ltb; apply Z.ltb_ge; lia).
   reflexivity.
+Qed.
+
+(* a read of the roll-up table: the bounds are judged after rounding up to the slot boundary (cl_slot) *)
+Lemma bounded_slot info c w sc lo hi :
+  w_type w = api_type c ->
+  (fl_slot slot15 (w_lo_min w) <= cl_slot slot15 lo <= w_from w)%Z ->
+  (w_to w <= cl_slot slot15 hi <= cl_slot slot15 (w_hi_max w + 1))%Z ->
+  info (sc_table sc) = slot15_typed ->
+  bounds sc = [TsLo lo; TsHi hi; Ty [api_type c; 0%Z]] ->
+  scan_bounded info w sc.
+Proof.
+  intros Hty Hlo Hhi Hi Hb. apply scan_bounded_b_iff. unfold scan_bounded_b, scan_failures. rewrite Hi, Hb.
+  cbn [ti_class ti_typed slot15_typed slot_bnds map]. unfold ts_lower_failures, ts_upper_failures, type_failures.
+  cbn [ts_los ts_his tys flat_map app zmax_list zmin_list fold_left andb slot_win w_from w_to w_lo_min w_hi_max]. rewrite Hty.
+  pose proof (api_type_nz c) as Hnz. apply Z.eqb_neq in Hnz. rewrite Hnz.
+  rewrite (types_ok (api_type c) (api_type_nz c)).
+  replace (cl_slot slot15 lo >? w_from w)%Z with false by (symmetry; rewrite Z.gtb_ltb; apply Z.ltb_ge; lia).
+  replace (cl_slot slot15 lo <? fl_slot slot15 (w_lo_min w))%Z with false by (symmetry; apply Z.ltb_ge; lia).
+  replace (cl_slot slot15 hi <? w_to w)%Z with false by (symmetry; apply Z.ltb_ge; lia).
+  replace (cl_slot slot15 hi >? cl_slot slot15 (w_hi_max w + 1) - 1 + 1)%Z with false by (symmetry; rewrite Z.gtb_ltb; apply Z.ltb_ge; lia).
+  reflexivity.
+Qed.
+(* ... in particular with both bounds on slot boundaries *)
+Lemma bounded_slot_aligned info c w sc lo hi :
+  w_type w = api_type c ->
+  (lo mod slot15 = 0)%Z -> (hi mod slot15 = 0)%Z ->
+  (fl_slot slot15 (w_lo_min w) <= lo <= w_from w)%Z -> (w_to w <= hi <= cl_slot slot15 (w_hi_max w + 1))%Z ->
+  info (sc_table sc) = slot15_typed ->
+  bounds sc = [TsLo lo; TsHi hi; Ty [api_type c; 0%Z]] ->
+  scan_bounded info w sc.
+Proof.
+  intros Hty Al Ah Hlo Hhi Hi Hb. apply (bounded_slot info c w sc lo hi); try assumption;
+    rewrite (cl_slot_aligned slot15 _ slot15_pos Al) || rewrite (cl_slot_aligned slot15 _ slot15_pos Ah); exact Hlo || exact Hhi.
 Qed.
 
 Lemma bounded_index info c w sc :
@@ -1093,7 +1146,8 @@ Section PROC.
           -- intros a b [Ht Ha]. subst d1. unfold Ge, classify, col_is, qualifier_ok. cbn. rewrite Ha, Ht. reflexivity.
           -- intros a b [Ht Ha]. subst d2. unfold Lt, classify, col_is, qualifier_ok. cbn. rewrite Ha, Ht. reflexivity.
         * left. destruct (wk_m15 _ _ _ Hwin Hm15) as [Hlo Hhi].
-          apply (bounded_data info c W _ (fl15 (c_from_ns c)) (fl15 (c_to_ns c))); [apply Hwin | exact Hlo | exact Hhi | apply Htab|].
+          apply (bounded_slot_aligned info c W _ (fl15 (c_from_ns c)) (fl15 (c_to_ns c)));
+            [apply Hwin | apply fl15_aligned | apply fl15_aligned | exact Hlo | exact Hhi | apply Htab|].
           unfold bounds. cbn [sc_conj flat_map]. rewrite (types_bounds c). subst d1 d2. reflexivity.
       + apply exprs_parts. constructor; fields_all; cbn [ogood]; try exact I;
           try (apply forall_egood_nil; destruct v; reflexivity); try (apply egood_nil; reflexivity); constructor.
@@ -1331,6 +1385,20 @@ Proof.
   destruct (process_good info c false true (win15 c) Ht (win_ok_win15 c Hf Hto) p Hl pst0 q st' p' (inv0 _ _ _) Hq) as [G _].
   apply (from_good _ _ _ _ true) in G. eapply Forall_impl; [|exact G].
   intros sc [H|[H _]]; [exact H | discriminate H].
+Qed.
+(* never miss data inside the window on the roll-up shortcut: for every instant t of [From, 15-second floor of To) the row
+   of the roll-up table holding t passes every timestamp conjunct of every slot-table read of the plan (the shortcut's
+   bounds are floored to slot boundaries: an unfloored lower bound would skip the slot that holds From) *)
+Theorem metric_rollup_reads_every_slot info s fin c p q st' p' t :
+  ctx_tables info c -> (0 <= c_from_ns c)%Z -> (0 <= c_to_ns c)%Z ->
+  plan_metric s fin = Some p -> process p c pst0 = Some (q, st', p') ->
+  (c_from_ns c <= t < fl15 (c_to_ns c))%Z ->
+  Forall (fun sc => forall k, ti_class (info (sc_table sc)) = CSlot k -> (0 < k)%Z ->
+            (forall lo, has_bnd sc (TsLo lo) -> lo <= fl_slot k t)%Z /\ (forall hi, has_bnd sc (TsHi hi) -> fl_slot k t < hi)%Z)
+         (scans q).
+Proof.
+  intros Ht Hf Hto Hp Hq Hin. eapply Forall_impl; [|exact (metric_scans_bounded_all info s fin c p q st' p' Ht Hf Hto Hp Hq)].
+  intros sc Hb k Hk Hpos. exact (scan_bounded_slot_complete info (win15 c) sc k t Hb Hk Hpos Hin).
 Qed.
 Theorem metric_scans_bounded_raw_all info s fin c p q st' p' :
   ctx_tables info c -> analyze_m15 s = false ->
